@@ -76,6 +76,7 @@ REWRITES = {
     "string_len": ("re", r"\btemp_text\.len\(\)", r"string_len(&temp_text)", "String::len (byte length) — shim with the std call"),
     "flat_map_collect": ("chain_fmc", "", "", "xs.iter().flat_map(f).collect() -> shim with the same std body (R8)"),
     "map_or_inline": ("opt_map_or", "", "", "Option::map_or(default, f) inlined as its std definition `match self { Some(x) => f(x), None => default }`"),
+    "box_as_ref": ("re", r"\bboxed\.as_ref\(\)", r"&**boxed", "Box::as_ref on &Box<T> replaced by its std body `&**self` (no vstd spec; generic over the allocator)"),
     "drop_const_fn": ("re", r"\bconst fn\b", "fn", "const fn that calls non-const shim"),
 }
 
@@ -107,6 +108,23 @@ def _postfix_chain_start(text, dot):
                 continue
             # parenthesised expression is a primary
             return k
+        if c == "}":
+            # `match scrutinee { .. }` used as a receiver
+            depth, k = 0, j - 1
+            while k >= 0:
+                if text[k] == "}":
+                    depth += 1
+                elif text[k] == "{":
+                    depth -= 1
+                    if depth == 0:
+                        break
+                k -= 1
+            mm = None
+            for mm_ in re.finditer(r"\bmatch\b", text[:k]):
+                mm = mm_
+            if mm is None:
+                return j
+            return mm.start()
         if c in rscan.IDENT_CONT:
             k = j - 1
             while k > 0 and text[k - 1] in rscan.IDENT_CONT:
@@ -165,28 +183,34 @@ def apply_rewrite(name, text):
         out = re.sub(pat, repl, text)
         return out, {"rewrite": name, "why": why, "sites": [{"from": s} for s in sites]}
     if spec[0] == "opt_closure":
-        # RECV.<method>(|x| BODY)  ->  match RECV { Some(x) => <wrap>(BODY), None => None }   (std definition of Option::and_then / map)
+        # RECV.<method>(|x| BODY) or RECV.<method>(path)  ->  match RECV { Some(x) => <wrap>(BODY), None => None }
         _, method, wrap, why = spec
-        pat = re.compile(r"\.\s*" + method + r"\s*\(\s*\|\s*(\w+)\s*\|")
-        m = pat.search(text)
-        if not m:
-            # the construct is not there (any more): nothing to rewrite; Verus decides on the text as it is
-            return text, {"rewrite": name, "why": why, "sites": []}
-        dot = m.start()
-        rs = _postfix_chain_start(text, dot)
-        recv = text[rs:dot].strip()
-        # closing paren of the call
-        op = text.index("(", dot)
-        depth, k = 1, op + 1
-        while depth:
-            if text[k] in "([{":
-                depth += 1
-            elif text[k] in ")]}":
-                depth -= 1
-            k += 1
-        body = text[m.end():k - 1].strip()
-        new = f"match {recv} {{ Some({m.group(1)}) => {wrap[0]}{body}{wrap[1]}, None => None }}"
-        return text[:rs] + new + text[k:], {"rewrite": name, "why": why, "sites": [{"from": text[rs:k][:120], "to": new[:120]}]}
+        pat = re.compile(r"\.\s*" + method + r"\s*\(\s*(?:\|\s*(\w+)\s*\||([A-Za-z_][\w:]*)\s*\))")
+        out, sites = text, []
+        for _round in range(20):
+            m = pat.search(out)
+            if not m:
+                break
+            dot = m.start()
+            rs = _postfix_chain_start(out, dot)
+            recv = out[rs:dot].strip()
+            if m.group(1):
+                op = out.index("(", dot)
+                depth, k = 1, op + 1
+                while depth:
+                    if out[k] in "([{":
+                        depth += 1
+                    elif out[k] in ")]}":
+                        depth -= 1
+                    k += 1
+                var, body = m.group(1), out[m.end():k - 1].strip()
+            else:
+                k = m.end()
+                var, body = "v_", f"{m.group(2)}(v_)"
+            new = f"(match {recv} {{ Some({var}) => {wrap[0]}{body}{wrap[1]}, None => None }})"
+            sites.append({"from": out[rs:k][:120], "to": new[:120]})
+            out = out[:rs] + new + out[k:]
+        return out, {"rewrite": name, "why": why, "sites": sites}
     if spec[0] == "chain_fmc":
         why = spec[3]
         pat = re.compile(r"\.\s*iter\(\)\s*\.\s*flat_map\s*\(")
